@@ -68,8 +68,8 @@ def case(rep, drv, rnd, i, tier):
     rep.count('programs')
     # (2) ... and with the all-compiled program on the real engine, answer for answer
     if v not in ('property', 'crash', 'skipped') and not any(op[0] == 'regpy' and op[4] is not None for op in ops_py):
-        ra, ea = scen.run_real(ops_all)
-        rp, ep = scen.run_real(ops_py)
+        ra, ea = scen.run_real_robust(ops_all, rep)
+        rp, ep = scen.run_real_robust(ops_py, rep)
         if ea or ep:
             rep.violation({'kind': 'real code raised', 'error': ea or ep, 'ops': scen.ops_json(ops_py)})
         else:
